@@ -63,6 +63,36 @@ Theorem C18_sector_opposite_normals_half_plane : forall ps dl,
   ps_contains ps dl = (0 <=? sm_odist (ps_right ps) dl).
 Proof. exact sector_opposite_normals_half_plane. Qed.
 
+(* ---- constructors (Sector / Arc ::with_center, ::center, ::from_circle, ::to_circle) ----------------------
+   center() = top_left + (d - 1) / 2 per axis (floor: for an even diameter the upper-left of the four central
+   pixels), as for Circle and Rectangle; with_center is its exact inverse for odd and even diameters. *)
+Theorem C18_sector_with_center_center : forall s,
+  rect_ok (se_bbox s) -> se_with_center (se_center s) (se_d s) (se_ps s) = s.
+Proof. exact sector_with_center_center. Qed.
+
+Theorem C18_sector_center_with_center : forall c d ps,
+  0 <= d <= Proofs.Geometry.bound -> se_center (se_with_center c d ps) = c.
+Proof. exact sector_center_with_center. Qed.
+
+Theorem C18_sector_center_formula : forall s,
+  0 <= se_d s ->
+  se_center s = P (px (se_tl s) + (Z.max (se_d s - 1) 0) / 2) (py (se_tl s) + (Z.max (se_d s - 1) 0) / 2).
+Proof. exact sector_center_formula. Qed.
+
+Theorem C18_sector_from_circle_to_circle : forall s, se_from_circle (se_to_circle s) (se_ps s) = s.
+Proof. exact sector_from_circle_to_circle. Qed.
+
+Theorem C18_arc_with_center_center : forall a,
+  rect_ok (ar_bbox a) -> ar_with_center (ar_center a) (ar_d a) (ar_ps a) = a.
+Proof. exact arc_with_center_center. Qed.
+
+Theorem C18_arc_center_with_center : forall c d ps,
+  0 <= d <= Proofs.Geometry.bound -> ar_center (ar_with_center c d ps) = c.
+Proof. exact arc_center_with_center. Qed.
+
+Theorem C18_arc_from_circle_to_circle : forall a, ar_from_circle (ar_to_circle a) (ar_ps a) = a.
+Proof. exact arc_from_circle_to_circle. Qed.
+
 (* a sector of 180 deg or more (operation Union), exactly: the circle minus the open integer cone that lies
    strictly beyond BOTH radial lines - centre-near points included *)
 Theorem C18_sector_union_exact : forall s p,
